@@ -5,5 +5,7 @@ cd "$(dirname "$0")"
 export CARGO_NET_OFFLINE=true
 (cd harness && cargo build --release --offline --target-dir target)
 (cd harness && cargo build --release --offline --features mock --target-dir target-mock)
+# LD_PRELOAD virtual clock for C09 (optional: the leg is skipped if this fails)
+cc -shared -fPIC -O1 -o shim/libvclock.so shim/vclock.c -ldl || echo "setup: vclock shim not built"
 sh tools/featurecheck.sh
 echo "setup ok"
